@@ -47,13 +47,16 @@ pub struct Case {
     pub mode: Mode,
     pub files: Vec<Vec<(String, u64)>>,
     pub cfgs: Vec<Cfg>,
+    /// 0 = "\n" line ends, 1 = "\r\n", 2 = "\n" but no newline after the last line of each file
+    pub eol: u8,
 }
 
 impl Case {
     fn to_json(&self) -> Value {
         json!({"mode": self.mode.name(),
                "files": self.files.iter().map(|f| f.iter().map(|(k, v)| json!([k, v])).collect::<Vec<_>>()).collect::<Vec<_>>(),
-               "configs": self.cfgs.iter().map(|c| json!([c.batch, c.fd, c.threads, c.sched.to_string()])).collect::<Vec<_>>()})
+               "configs": self.cfgs.iter().map(|c| json!([c.batch, c.fd, c.threads, c.sched.to_string()])).collect::<Vec<_>>(),
+               "eol": self.eol})
     }
     fn from_json(v: &Value) -> Option<Case> {
         let files = v
@@ -68,7 +71,7 @@ impl Case {
             .iter()
             .map(|c| Some(Cfg { batch: c.get(0)?.as_u64()? as u32, fd: c.get(1)?.as_u64()? as u32, threads: c.get(2)?.as_u64()? as u32, sched: c.get(3)?.as_str()?.parse().ok()? }))
             .collect::<Option<Vec<_>>>()?;
-        Some(Case { mode: Mode::from_name(v.get("mode")?.as_str()?)?, files, cfgs })
+        Some(Case { mode: Mode::from_name(v.get("mode")?.as_str()?)?, files, cfgs, eol: v.get("eol").and_then(|x| x.as_u64()).unwrap_or(0) as u8 })
     }
     fn rows(&self) -> Vec<&(String, u64)> {
         self.files.iter().flat_map(|f| f.iter()).collect()
@@ -172,7 +175,25 @@ fn run_cli(dir: &PathBuf, case: &Case, inputs: &[PathBuf], cfg: Option<Cfg>, idx
         Some(c) => format!("batch-size={} fd-limit={} threads={} sched-seed={}", c.batch, c.fd, c.threads, c.sched),
         None => "--sorted".to_string(),
     };
-    let res = cmd.output().map_err(|e| Fail::new("harness-io", format!("cannot run {:?}: {}", fst_bin(), e)))?;
+    // normal runs take milliseconds; one that is still running after two minutes has hung
+    let mut child = cmd.stdout(std::process::Stdio::null()).stderr(std::process::Stdio::piped()).spawn().map_err(|e| Fail::new("harness-io", format!("cannot run {:?}: {}", fst_bin(), e)))?;
+    let t0 = std::time::Instant::now();
+    let limit = std::time::Duration::from_secs(std::env::var("VERIF_CLI_TIMEOUT_S").ok().and_then(|s| s.parse().ok()).unwrap_or(120));
+    loop {
+        match child.try_wait() {
+            Ok(Some(_)) => break,
+            Ok(None) => {
+                if t0.elapsed() > limit {
+                    let _ = child.kill();
+                    let _ = child.wait();
+                    return Err(Fail::new("cli-hang", format!("fst did not finish within {} s ({}); input {}", limit.as_secs(), desc(), case.show())));
+                }
+                std::thread::sleep(std::time::Duration::from_millis(2));
+            }
+            Err(e) => return Err(Fail::new("harness-io", e.to_string())),
+        }
+    }
+    let res = child.wait_with_output().map_err(|e| Fail::new("harness-io", e.to_string()))?;
     if !res.status.success() {
         return Err(Fail::new("cli-failed", format!("fst exited with {:?} ({}): {}; input {}", res.status.code(), desc(), String::from_utf8_lossy(&res.stderr).trim(), case.show())));
     }
@@ -205,13 +226,18 @@ pub fn check(case: &Case, rec: &mut Rec) -> CheckResult {
     for (i, f) in case.files.iter().enumerate() {
         let p = dir.join(format!("in-{}.txt", i));
         let mut s = String::new();
-        for (k, v) in f {
+        for (j, (k, v)) in f.iter().enumerate() {
             if case.mode == Mode::Set {
                 s.push_str(k);
             } else {
                 s.push_str(&format!("{},{}", csv_field(k), v));
             }
-            s.push('\n');
+            let last = j + 1 == f.len();
+            match case.eol {
+                1 => s.push_str("\r\n"),
+                2 if last => {}
+                _ => s.push('\n'),
+            }
         }
         std::fs::write(&p, s).map_err(|e| Fail::new("harness-io", e.to_string()))?;
         inputs.push(p);
@@ -332,7 +358,7 @@ fn cfgs_strategy(nrows: usize) -> impl Strategy<Value = Vec<Cfg>> {
 pub fn case_strategy() -> impl Strategy<Value = Case> {
     (
         prop_oneof![2 => Just(Mode::Set), 3 => Just(Mode::Sum), 2 => Just(Mode::Max), 2 => Just(Mode::Min)],
-        proptest::collection::vec((key_strategy(), 0u64..1000, 0u8..4), 1..14),
+        prop_oneof![6 => proptest::collection::vec((key_strategy(), 0u64..1000, 0u8..4), 1..14), 1 => proptest::collection::vec((key_strategy(), 0u64..1000, 0u8..4), 40..90)],
         1usize..=3,
         prop::bool::weighted(0.7),
     )
@@ -357,7 +383,18 @@ pub fn case_strategy() -> impl Strategy<Value = Case> {
                 files[(i / per.max(1)).min(nfiles - 1)].push(r);
             }
             let n: usize = files.iter().map(|f| f.len()).sum();
-            cfgs_strategy(n).prop_map(move |cfgs| Case { mode, files: files.clone(), cfgs })
+            (cfgs_strategy(n), prop_oneof![4 => Just(0u8), 1 => Just(1u8), 1 => Just(2u8)], prop::bool::weighted(0.15)).prop_map(move |(cfgs, eol, bigvals)| {
+                let mut files = files.clone();
+                if bigvals {
+                    // values beyond 32 bits (sums of <= 40 rows cannot overflow)
+                    for f in files.iter_mut() {
+                        for r in f.iter_mut() {
+                            r.1 = (r.1 << 40) | (r.1 << 16) | r.1;
+                        }
+                    }
+                }
+                Case { mode, files, cfgs, eol }
+            })
         })
 }
 
@@ -373,6 +410,7 @@ pub fn run(e: &Engine) {
         mode,
         files: files.into_iter().map(|f| f.into_iter().map(|(k, v)| (k.to_string(), v)).collect()).collect(),
         cfgs: cfgs.into_iter().enumerate().map(|(i, (batch, fd, threads))| Cfg { batch, fd, threads, sched: i as u64 }).collect(),
+        eol: 0,
     };
     let fixed = vec![
         mk(Mode::Sum, vec![vec![("a", 1), ("b", 2), ("c", 3), ("d", 4), ("e", 5)]], vec![(1, 2, 1), (2, 2, 3), (5, 15, 16), (6, 3, 2)]),
